@@ -275,7 +275,15 @@ func sortCallbacks(cs []*callback) (fns []func(*DB), err error) {
 		names = append(names, c.name)
 	}
 
+	var depth int
 	sortCallback = func(c *callback) error {
+		// callbacks that reference each other in a cycle would recurse forever
+		depth++
+		defer func() { depth-- }()
+		if depth > 2*len(cs)+2 {
+			return fmt.Errorf("conflicting callback %s: circular before/after dependency", c.name)
+		}
+
 		if c.before != "" { // if defined before callback
 			if c.before == "*" && len(sorted) > 0 {
 				if curIdx := getRIndex(sorted, c.name); curIdx == -1 {
